@@ -159,7 +159,7 @@ PROPS["C07"] = {
                     "fake region clients answer synchronously inside QueueBatch"],
     "jobs": [
         {"name": "sendbatch_outcomes", "pkg": "root", "entry": "VerifSendBatch", "stubs": BATCH_STUBS, "reach": ["returned"],
-         "params": {"quick": {"PROP": 7, "N": 2, "TRIES": 2, "LOOKUPFAIL": 0, "CANCEL": 0}, "thorough": {"PROP": 7, "N": 3, "TRIES": 3, "LOOKUPFAIL": 0, "CANCEL": 0}}},
+         "params": {"quick": {"PROP": 7, "N": 2, "TRIES": 3, "LOOKUPFAIL": 0, "CANCEL": 0}, "thorough": {"PROP": 7, "N": 3, "TRIES": 3, "LOOKUPFAIL": 0, "CANCEL": 0}}},
         {"name": "sendbatch_relocate_fails", "pkg": "root", "entry": "VerifSendBatch", "stubs": BATCH_STUBS, "reach": ["returned"],
          "params": {"quick": {"PROP": 7, "N": 2, "TRIES": 2, "LOOKUPFAIL": 1, "CANCEL": 0}, "thorough": {"PROP": 7, "N": 3, "TRIES": 2, "LOOKUPFAIL": 1, "CANCEL": 0}}},
         {"name": "sendbatch_cancel", "pkg": "root", "entry": "VerifSendBatch", "stubs": BATCH_STUBS, "reach": ["returned"], "native_retries": 30,
